@@ -21,6 +21,7 @@ summary = {
  "C15":"GC clamp pairing, delete-after-write-back, value-log pin for every API that hands out value pointers",
  "C16":"header encode/decode agreement, IV derivation agreement, CRC coverage agreement, txn-unit delivery shape",
  "C17":"framing agreement, checksum-before-apply, append+apply under one lock, fsync on success, TableManifest field coverage",
+ "C18":"writer/reader layout agreement of block trailer, table footer and entries (affine offsets), mirror order of compression/encryption and checksum coverage, metadata provenance (max version, key count, smallest/biggest), comparison polarity of block, table and concat seeks",
  "C19":"bit-position arithmetic of builder and prober is the same expression; hash-domain agreement at every DoesNotHave call site",
  "C20":"complement constant / suffix width agreement, field-sequence agreement of the codecs, header size bound",
  "C21":"equal-key tie-break keeps the left (earlier) input; balanced construction preserves input order",
@@ -47,7 +48,6 @@ reg = subprocess.run(["bin/bverif", "list"], stdout=subprocess.PIPE, text=True).
 props = [json.loads(l) for l in open("properties.jsonl")]
 checks, na = [], []
 NA = {
- "C18":"round trip over data-dependent encodings (prefix compression, block boundaries, compression, checksums) for all entry sequences: no clause is visible in the shape of the code beyond footer layouts that the existing table tests already pin; declined rather than claimed through a brittle proxy",
 }
 for p in props:
     i = p["id"]
